@@ -86,3 +86,99 @@ register("C07", unclaimed="connection model (Lean) being built", lean=[], run=ru
               "distinct_nontrivial = distinct histories with >= 2 requests or a closing outcome.",
          assumptions=["lock-step client (sends request i+1 only after response i; the rest of an unread body may travel with the next head)"],
          explanation="(under construction)")
+
+
+# ------------------------------------------------------------------------------------------------ C10
+def c10_cases(seed, tier):
+    """(max, segments, expected first item, head_len)"""
+    r = rng_for(seed, "c10")
+    out = []
+    maxes = list(range(0, 65)) if tier != "quick" else [0, 1, 2, 15, 16, 17, 18, 19, 20, 26, 30, 31, 32, 33, 40, 63, 64]
+    maxes += [100, 4096, 16384]
+    for N in maxes:
+        for delta in (-2, -1, 0, 1, 2, 40):
+            L = N + delta
+            kind = r.choice(["p", "echo"])
+            if kind == "p":
+                base = b"GET /p//b HTTP/1.1\r\n\r\n"          # 24 bytes with empty first parameter
+                if L < len(base) + 1:
+                    continue
+                a = b"a" * (L - len(base))
+                head = b"GET /p/" + a + b"/b HTTP/1.1\r\n\r\n"
+                body, exp_ok = b"", "R200:0:" + hx(a + b",b")
+            else:
+                base = b"POST /echo HTTP/1.1\r\nContent-Length: 3\r\nX: \r\n\r\n"
+                if L < len(base):
+                    continue
+                head = b"POST /echo HTTP/1.1\r\nContent-Length: 3\r\nX: " + b"v" * (L - len(base)) + b"\r\n\r\n"
+                body, exp_ok = b"xyz", "R200:0:" + hx(b"xyz")
+            assert len(head) == L
+            exp = exp_ok if L <= N else "R431:1:e"
+            for mode in ("whole", "split", "bytes" if L < 90 else "split", "with_body"):
+                data = head + (body if mode == "with_body" or True else b"")
+                if mode == "whole" or mode == "with_body":
+                    segs = [data]
+                elif mode == "bytes":
+                    segs = [data[i:i + 1] for i in range(len(data))]
+                else:
+                    cuts = sorted(set(r.randrange(1, len(data)) for _ in range(r.choice([1, 2, 4]))))
+                    segs, p = [], 0
+                    for c in cuts + [len(data)]:
+                        segs.append(data[p:c]); p = c
+                out.append((N, segs, exp, L))
+        # a malformed head inside the first N bytes -> 400 whatever follows
+        if N >= 8:
+            bad = b"GET /\x01 HTTP/1.1\r\n\r\n" + b"x" * N
+            out.append((N, [bad], "R400:1:e", len(bad)))
+            out.append((N, [bad[:6], bad[6:]], "R400:1:e", len(bad)))
+    return out
+
+
+def run_c10(o, ctx, tier, seed, replay=None):
+    t = "thorough" if tier in ("thorough", "search") else "quick"
+    if replay is not None:
+        cases = [(replay["max"], [unhex(x) for x in replay["segs"]], replay["expected"], 0)]
+    else:
+        cases = c10_cases(seed, t)
+    lines = ["CONN max=%d script=%s,r,e" % (N, ",".join("s:" + hx(s_) for s_ in segs)) for N, segs, _, _ in cases]
+    mlines = ["RDREQ max=%d segs=%s close=0" % (N, ",".join(hx(s_) for s_ in segs)) for N, segs, _, _ in cases]
+    impl = C.run_sharded(ctx["kimpl"], lines, shards=min(C.NCPU, 16))
+    model = C.run_sharded(ctx["kmodel"], mlines) if ctx.get("have_model") else None
+    for i, ((N, segs, exp, L), c, a) in enumerate(zip(cases, lines, impl)):
+        o.evaluations += 1
+        got, d = transcript(a)
+        o.count("max<=64" if N <= 64 else "max=%d" % N)
+        o.count("head-max=%+d" % (L - N) if abs(L - N) <= 2 else "head-max=far")
+        if abs(L - N) <= 2:
+            o.nontrivial.add(c)
+        if len(o.samples) < 5 and i % 97 == 0:
+            o.samples.append({"case": c[:300], "impl": a[:120], "expected_first": exp[:80]})
+        why = None
+        if got is None or not got:
+            why = "scenario crashed: " + a[:60]
+        elif got[0] != exp:
+            why = "limit N=%d, head of %d bytes: got %s, expected %s" % (N, L, got[0][:40], exp[:40])
+        elif exp.startswith(("R431", "R400")) and got[1:2] != ["EOF"]:
+            why = "connection not closed after %s" % exp[:4]
+        elif int(d.get("maxrecv", "0")) > N:
+            why = "a socket read asked for %s bytes although the head limit is %d" % (d.get("maxrecv"), N)
+        if why and len(o.violations) < 30:
+            o.violations.append({"case": c, "max": N, "segs": [hx(s_) for s_ in segs], "expected": exp, "impl": a[:300], "why": why})
+        if model is not None and got:
+            m = model[i]
+            mv = m.split()[0:2]
+            verdict = "ok" if got[0].startswith("R") and not got[0].startswith(("R431", "R400")) else "tooLarge" if got[0].startswith("R431") else "invalid" if got[0].startswith("R400") else got[0]
+            mverdict = "ok" if mv[0] == "OK" else mv[1] if len(mv) > 1 else "?"
+            _, md = kv("X " + m)
+            if verdict != mverdict or (int(md.get("maxrecv", "0")) != int(d.get("maxrecv", "0")) and verdict != "ok"):
+                if len(o.mismatches) < 20:
+                    o.mismatches.append({"case": c, "impl": a[:200], "model": m})
+
+
+register("C10", lean=["Khttp.Props.C10"], run=run_c10,
+         rule="CONN cases with max_request_head_size N in {0..64 (thorough: all; quick: 17 values), 100, 4096, 16384} x head lengths N-2..N+2 and N+40 x {GET with parameters, POST with body bytes in the same segment} "
+              "x segmentations {one segment, random cuts, one byte per segment}; malformed heads inside the first N bytes. The interposed recv records the largest length requested on the server socket. "
+              "distinct_nontrivial = distinct cases whose head length is within 2 of the limit.",
+         assumptions=["a gated client: a recv sees at most the current segment (model Sock)", "TcpStream::read = recv(fd, buf, len) (observed through an interposed recv symbol)"],
+         explanation="Theorems on the read_request loop model: every recv asks for exactly max - filled (< max buffered), success keeps buffered ++ in-flight = sent, a head of at most max bytes is accepted under every segmentation "
+                     "whatever follows, a head not complete within max bytes gives 431, malformed within max gives 400, otherwise wait/EOF. Oracle: first response + close + largest recv length on the real server.")
